@@ -87,6 +87,12 @@ CLAIMS = {
         "Trusts the harness proto3 parser for the subset of the language the two files use, and google.golang.org/protobuf's reflection of the generated code.",
         "DESIGN.md §7 C17",
     ),
+    "C18": (
+        "property-based differential testing (rapid) of the API-backed client against a harness-built in-memory client behind an in-process fake Insights service, structural predicates over the four client calls, and concurrent batches under the Go race detector",
+        "Generated npm registries (scoped names, shuffled version lists with is_default, all four dependency sections plus bundleDependencies, npm: aliases incl. scoped targets, bundle trees to depth 3 incl. copies installed under an alias and packages unknown to the registry) are served by a fake pb.InsightsClient. For every version: every bundled entry is a package with the mangled name, one concrete version carrying DerivedFrom, required by its bundling parent with a requirement that MatchingVersions resolves to exactly that version, and Version/Versions/Requirements/MatchingVersions agree; aliases become requirements on the real name with KnownAs. npm resolution through the APIClient equals (harness isomorphism labeller) resolution over a LocalClient loaded from the generated model by the harness. A -race binary resolves up to 16 roots concurrently through one APIClient: no race report, every graph equals the sequential one. Holds on everything explored; interleavings are sampled, not enumerated.",
+        "The in-memory side answers not-found for a package without versions, as the service does (LocalClient documents that it creates an empty entry instead). Bundle slots shadowing the bundling package's own name are not generated: they trigger the recorded npm resolver non-termination (C04 npm-bundle-reentry-nontermination); resolutions exceeding a 5 s watchdog are counted as excluded.",
+        "DESIGN.md §7 C18",
+    ),
     "C05": (
         "stateful property-based testing (rapid state machine over histories of resolutions) with a metamorphic fresh-twin oracle and client snapshots; concurrent batches under the Go race detector",
         "Generated universes (npm, Maven, PyPI) and histories of resolve / resolve-again / concurrent batches (up to 16) / permuted reloads on one client and resolver; every returned graph must equal (harness isomorphism labeller) the graph of a brand-new client and resolver, and everything the client reports (Versions, Requirements, MatchingVersions for every package, version and requirement string, order included) must be unchanged after every action. A second binary built with -race runs the concurrent histories; any race report is a violation. Holds on everything explored; interleavings are sampled, not enumerated.",
